@@ -153,7 +153,7 @@ static std::string writeModel(const J &sys, const Variant &vr, const J &external
                 lhs = "<apply><diff/><bvar><ci>" + P("t") + "</ci></bvar>" + lhs + "</apply>";
             }
             eqs.push_back("<apply><eq/>" + lhs + rhs + "</apply>");
-            if (faultKind == "duplicateEquation" && faultName == c["name"].str()) {
+            if ((faultKind == "duplicateEquation" || faultKind == "duplicateOde") && faultName == c["name"].str()) {
                 eqs.push_back("<apply><eq/>" + lhs + "<cn cellml:units=\"" + unitsOf(comp) + "\">77</cn></apply>");
             }
         }
